@@ -1,6 +1,6 @@
 (* Properties/C17.v -- The vector path renders exactly the dark modules (the parts that are theorems). *)
 From Coq Require Import ZArith List Bool Sorted.
-From DM Require Import Model.Outcome Model.Path Spec.EvenOdd Proofs.PathProofs.
+From DM Require Import Model.Outcome Model.Path Spec.EvenOdd Proofs.PathProofs Proofs.PathMicro Proofs.PathGraph Proofs.PathAlgo Proofs.UnicodeProofs.
 Import ListNotations.
 Local Open Scope Z_scope.
 
@@ -50,12 +50,57 @@ Theorem C17_pixels : forall l w ps, 0 < w -> pixels l w = Ok ps ->
 Proof. exact pixels_spec. Qed.
 Print Assumptions C17_pixels.
 
-(* NOT a theorem: that the Hierholzer decomposition of Bitmap::path (tours, alternatives / insert bookkeeping,
-   Jump, compress_path) draws every boundary edge exactly once for EVERY bitmap.  It is decided per output: the
-   implementation's path for each generated bitmap is (a) compared with the model of the algorithm (Model/Path.v),
-   (b) passed through the verified check C17_check_sound (extracted), (c) re-filled by an independent Python
-   rasteriser.  Bitmap::unicode is compared with its model and the Python oracle. *)
+(* (v) the algorithm itself, for EVERY bitmap with a dark top-left module: whenever Bitmap::path returns (model of
+   bits_to_edge_graph, edge_left, the walk / euler / tours loops with the insert and alternatives bookkeeping,
+   Jump between components, compress_path), the path is well-formed and its even-odd filling is exactly the set of
+   dark modules.  Partial correctness: the statement is about the paths that are returned; that the model's
+   expect() sites and fuel bounds are never hit is checked per input by the correspondence run, not proved. *)
+Theorem C17_path_renders_dark : forall (l : list bool) (w : Z) (segs : list seg),
+  let h := Z.of_nat (length l) / w in
+  path l w = Ok segs -> dark (bits_map l) w h 0 0 = true ->
+  wf_path w h segs = true /\
+  forall x y, 0 <= x < w -> 0 <= y < h -> inside w h segs x y = dark (bits_map l) w h y x.
+Proof. exact path_correct. Qed.
+Print Assumptions C17_path_renders_dark.
+
+(* (v.a) its two halves: the tours use every edge of the outline graph exactly once and are closed chains of unit
+   moves inside the box ... *)
+Theorem C17_tours_decompose : forall (l : list bool) (w h : Z) (g0 : graph), 0 < w -> 0 <= h -> bits_to_edge_graph l w h = Ok g0 ->
+  forall fuel efuel g p E insert R, tours fuel efuel g p E insert = Ok R ->
+  GI w h g -> WI g0 g (medges (0, 0) E) -> has_edge g p = true -> EPre w h E insert (start_node p) ->
+  mvalid w h (0, 0) (0, 0) false R = true /\ NoDup (medges (0, 0) R) /\ forall k, edge_in g0 k = true <-> In k (medges (0, 0) R).
+Proof. exact tours_ok. Qed.
+Print Assumptions C17_tours_decompose.
+
+(* (v.b) ... and compress_path turns any such list of micro steps into a well-formed path that draws each vertical
+   unit edge exactly as often as the micro steps traverse it *)
+Theorem C17_compress_path : forall w h l, 0 <= w -> 0 <= h ->
+  mvalid w h (0, 0) (0, 0) false l = true -> NoDup (medges (0, 0) l) ->
+  wf_path w h (compress_path l) = true /\
+  forall x y, count_at (edges (draw w h (compress_path l))) x y = kcount (medges (0, 0) l) x y.
+Proof. exact compress_ok. Qed.
+Print Assumptions C17_compress_path.
+
+(* (vi) the Unicode block rendering, for every bitmap: ceil((h+2)/2) lines of w + 2 block characters and a line
+   feed; the character in line r, column j shows module (2r-1, j-1) in its upper half and module (2r, j-1) in its lower
+   half (block: U+2588 both, U+2580 upper, U+2584 lower, space none); modules outside the bitmap -- the one-module
+   border -- are light by the definition of dark *)
+Theorem C17_unicode : forall (l : list bool) (w : Z) (cps : list Z), 0 < w -> unicode l w = Ok cps ->
+  let h := Z.of_nat (length l) / w in
+  let rows := (h + 3) / 2 in
+  Z.of_nat (length cps) = rows * (w + 3) /\
+  forall r, 0 <= r < rows ->
+    nth (Z.to_nat (r * (w + 3) + (w + 2))) cps 0 = 10 /\
+    forall j, 0 <= j < w + 2 ->
+      nth (Z.to_nat (r * (w + 3) + j)) cps 0 = block (dark (bits_map l) w h (2 * r - 1) (j - 1)) (dark (bits_map l) w h (2 * r) (j - 1)).
+Proof. exact unicode_spec. Qed.
+Print Assumptions C17_unicode.
+
+(* In addition every path the implementation returns is (a) compared with the model, (b) passed through the verified
+   check C17_check_sound (extracted), (c) re-filled by an independent Python rasteriser.  Bitmap::unicode is compared
+   with its model and a Python oracle as well. *)
 Example C17_example : path [true; false; true; true] 2 = Ok [Hor 1; Ver 1; Hor 1; Ver 1; Hor (-2); Close]
   /\ check_path_fast [true; false; true; true] 2 2 [Hor 1; Ver 1; Hor 1; Ver 1; Hor (-2); Close] = true
-  /\ check_path_fast [true; false; true; true] 2 2 [Hor 2; Ver 2; Hor (-2); Close] = false.
+  /\ check_path_fast [true; false; true; true] 2 2 [Hor 2; Ver 2; Hor (-2); Close] = false
+  /\ dark (bits_map [true; false; true; true]) 2 (Z.of_nat 4 / 2) 0 0 = true.
 Proof. vm_compute. repeat split. Qed.
